@@ -26,6 +26,12 @@ CHECKS['C03'] = dict(level='model_checking', design='1/C03',
 CHECKS['C04'] = dict(level='model_checking', design='1/C04',
      text='Histories of symbolic Var operations (assignment between any two of three Vars incl. to own element/property, element and property assignment with auto-creation, append, clone, fresh values of every kind, comparison, removal) are executed on the real Var.cpp against a reference value model with shared containers; every Var is re-read through its accessors after every step; use-after-free, double destruction and leaks are decided on every path.',
      note='Bounds in evidence (1-2 ops, trees of depth <= 2). Doubles are z3 floating-point terms. Trusted: z3, engine IR semantics.')
+CHECKS['C05'] = dict(level='model_checking', design='1/C05',
+     text='The real XdlEncoder and XdlParser (Xdl.cpp) are executed symbolically on Vars whose ints, booleans, string bytes and key bytes are symbolic, in all four modes: decode(encode(v)) must match a reference value model, and the JSON text must be accepted with the same value by an independent strict RFC 8259 parser executed in the same symbolic run.',
+     note='Bounds in evidence. Doubles/floats: only a table of concrete boundary values (libc %.17g/strtod trusted); file write/read clause not covered. Trusted: z3, engine IR semantics.')
+CHECKS['C06'] = dict(level='model_checking', design='1/C06',
+     text='Json::decode/Xdl::decode and the incremental XdlParser are executed on every byte string up to the stated length and on every sequence of tokens from a JSON/XDL token table (optionally with an arbitrary byte spliced in): no memory error, termination within the step budget, 2-chunk feeding equals whole feeding for every cut, every document accepted by the independent strict parser is accepted with the same value, and every proper prefix of an accepted array/object/string document is rejected.',
+     note='Bounds in evidence (raw length <= 2 quick / 3 thorough; <= 3-4 tokens; nesting 512). Trusted: z3, engine IR semantics, libc atof on concrete text.')
 NA = {
 }
 ALL = ['C%02d' % i for i in range(1, 21)]
